@@ -728,3 +728,59 @@ Proof.
   split; [vm_compute; reflexivity|].
   vm_compute. auto.
 Qed.
+
+(* ------------------------------------------------------------------ *)
+(* K1 (C01) seen from C02: install --replace while a revision is still deployed.  The install
+   theorem above has no clause about resources of a previously deployed revision, and none holds:
+   install adopts what its own manifest names and never looks at the deployed manifest. *)
+Definition k1_world : world :=
+  mkW [mkRelease 1 SDeployed 1 1 ex_mani1 []; mkRelease 2 SFailed 2 2 ex_mani1 []]
+      (map (fun r => (rkey r, stamp_fields "rel" "default" (r_fields r))) ex_mani1).
+Definition k1_install : opcase :=
+  mkOp (OpInstall (mkFlags false false false true 0 false false false false 0) 3 3 ex_mani2 [])
+       (mkSF None None) (mkCF None None false).
+
+Lemma install_replace_over_deployed_leaks :
+  exists (w : world) (c : opcase) (d : release) (r : res),
+    fault_free c /\ In d (w_led w) /\ st d = SDeployed /\ In r (manifest d) /\
+    let '(w', out, _) := run_store_op "rel" "default" c w in
+    out = OOk /\
+    (exists fl cid vid mani hks, oc_op c = OpInstall fl cid vid mani hks /\ in_keys (rkey r) mani = false) /\
+    (exists live, aget (rkey r) (w_objs w) = Some live /\ live_keep live = false) /\
+    aget (rkey r) (w_objs w') <> None.
+Proof.
+  exists k1_world, k1_install, (mkRelease 1 SDeployed 1 1 ex_mani1 []), (cm "b" [("d:k", "v1")]).
+  split; [split; reflexivity|]. split; [now left|]. split; [reflexivity|]. split; [right; now left|].
+  vm_compute. split; [reflexivity|]. split.
+  - do 5 eexists. split; reflexivity.
+  - split; [eexists; split; reflexivity|discriminate].
+Qed.
+
+(* K6 (C03) seen from C02: rollback diffs against the LATEST revision even when that one failed
+   and was never applied; a resource that only the deployed revision has is not looked at. *)
+Definition k6_sa : res := mkRes "ServiceAccount" "sa" [("l:tier", "web")].
+Definition k6_world : world :=
+  mkW [mkRelease 1 SSuperseded 1 1 ex_mani2 []; mkRelease 2 SDeployed 2 2 (ex_mani2 ++ [k6_sa]) [];
+       mkRelease 3 SFailed 3 3 ex_mani2 []]
+      (map (fun r => (rkey r, stamp_fields "rel" "default" (r_fields r))) (ex_mani2 ++ [k6_sa])).
+Definition k6_rollback : opcase :=
+  mkOp (OpRollback (mkFlags false false false false 0 false false false false 1))
+       (mkSF None None) (mkCF None None false).
+
+Lemma rollback_over_failed_revision_leaks :
+  exists (w : world) (c : opcase) (d : release) (r : res),
+    fault_free c /\ In d (w_led w) /\ st d = SDeployed /\ In r (manifest d) /\
+    let '(w', out, _) := run_store_op "rel" "default" c w in
+    out = OOk /\
+    (exists fl cur pr, oc_op c = OpRollback fl /\ rollback_target fl (w_led w) = Some (cur, pr) /\
+                       st cur = SFailed /\ in_keys (rkey r) (manifest pr) = false) /\
+    (exists live, aget (rkey r) (w_objs w) = Some live /\ live_keep live = false) /\
+    aget (rkey r) (w_objs w') <> None.
+Proof.
+  exists k6_world, k6_rollback, (mkRelease 2 SDeployed 2 2 (ex_mani2 ++ [k6_sa]) []), k6_sa.
+  split; [split; reflexivity|]. split; [right; now left|]. split; [reflexivity|].
+  split; [apply in_or_app; right; now left|].
+  vm_compute. split; [reflexivity|]. split.
+  - do 3 eexists. repeat split; reflexivity.
+  - split; [eexists; split; reflexivity|discriminate].
+Qed.
